@@ -10,6 +10,7 @@ import (
 	"fmt"
 	"io"
 	"net"
+	"runtime"
 	"strconv"
 	"strings"
 	"time"
@@ -58,6 +59,27 @@ func (c *chunkReader) rest() []byte {
 	}
 	return out
 }
+
+// gatedReader delivers chunks only when the harness pushes them (writer bursts vs lagging reader).
+type gatedReader struct {
+	ch   chan []byte
+	left []byte
+}
+
+func (g *gatedReader) Read(p []byte) (int, error) {
+	if len(g.left) == 0 {
+		c, ok := <-g.ch
+		if !ok {
+			return 0, io.EOF
+		}
+		g.left = c
+	}
+	n := copy(p, g.left)
+	g.left = g.left[n:]
+	return n, nil
+}
+func (g *gatedReader) Write(p []byte) (int, error) { return len(p), nil }
+func (g *gatedReader) Close() error                { return nil }
 
 func cloneChunks(c [][]byte) [][]byte {
 	out := make([][]byte, len(c))
@@ -592,9 +614,12 @@ func (e *engine) runC08() {
 			before := len(wc.writes)
 			_, err := pc.WriteTo(p, addr("r"))
 			if err != nil || len(wc.writes) != before+1 {
-				e.rep.Disagree(lib.Disagreement{Op: "WriteTo", Impl: fmt.Sprint(err, len(wc.writes)-before), Monitor: "confirmed", What: "WriteTo did not issue exactly one write per packet", Key: "framing.pkt:write"})
+				e.rep.Disagree(lib.Disagreement{Op: fmt.Sprintf("WriteTo(%d bytes)", len(p)), Impl: fmt.Sprint(err, " writes=", len(wc.writes)-before), Monitor: "confirmed", What: "PacketConn.WriteTo put one packet on the stream in more than one Write: concurrent writers can interleave header and payload, so packet boundaries are not preserved", Key: "framing.pkt:write"})
 			}
-			fr := wc.writes[len(wc.writes)-1]
+			var fr []byte // everything this WriteTo put on the wire
+			for _, wpart := range wc.writes[before:] {
+				fr = append(fr, wpart...)
+			}
 			mf := e.m.Query("framing.frame p=" + lib.Hex(p))
 			e.rep.Case("framing.frame p="+lib.Hex(p), mf, "ok "+lib.Hex(fr), "frame", true)
 			if mf != "ok "+lib.Hex(fr) {
@@ -696,7 +721,9 @@ func (e *engine) runC08() {
 			if err := s.SendMsg(&rawMsg{data: p}); err != nil || len(wc2.writes) != before+1 {
 				e.rep.Disagree(lib.Disagreement{Op: "SendMsg", Impl: fmt.Sprint(err), Monitor: "confirmed", What: "SendMsg did not issue exactly one write per message", Key: "framing.sess:write"})
 			}
-			sstream = append(sstream, wc2.writes[len(wc2.writes)-1]...)
+			for _, wpart := range wc2.writes[before:] {
+				sstream = append(sstream, wpart...)
+			}
 			swant = append(swant, lib.Hex(p))
 		}
 		if swant == nil {
@@ -846,6 +873,73 @@ func (e *engine) runC09() {
 	}
 }
 
+// runC09Burst: writer bursts against a lagging reader (buffers recycled through the arena
+// while packets are still queued): push / read schedules with the reader buffer always large.
+func (e *engine) runC09Burst() {
+	e.rep.Require("conn.burst")
+	prev := runtime.GOMAXPROCS(1) // sync.Pool is per-P: make buffer recycling deterministic
+	defer runtime.GOMAXPROCS(prev)
+	n := 30 * e.a.Scale
+	for i := 0; i < n; i++ {
+		sizes := []int{1500, 548, 2048}
+		if i > 0 {
+			sizes = nil
+			for j := 0; j < 3+e.rng.Intn(6); j++ {
+				sizes = append(sizes, []int{1, 100, 500, 548, 1000, 1500, 2047, 2048}[e.rng.Intn(8)])
+			}
+		}
+		var chunks [][]byte
+		var all []byte
+		for j, sz := range sizes {
+			c := make([]byte, sz)
+			for k := range c {
+				c[k] = byte('A' + j)
+			}
+			chunks = append(chunks, c)
+			all = append(all, c...)
+		}
+		ctx, cancel := context.WithCancel(context.Background())
+		g := &gatedReader{ch: make(chan []byte, 64)}
+		c := rwc.NewConn(ctx, g, addr("l"), addr("r"), 32)
+		var got []byte
+		mon := ""
+		readOne := func() {
+			buf := make([]byte, 4096)
+			_ = c.SetReadDeadline(time.Now().Add(5 * time.Second))
+			nr, err := c.Read(buf)
+			if err != nil {
+				mon = "read failed: " + err.Error()
+				return
+			}
+			got = append(got, buf[:nr]...)
+		}
+		// schedule: push first, read it, then push the rest as a burst, let the pump run, then drain
+		g.ch <- chunks[0]
+		readOne()
+		for _, ch := range chunks[1:] {
+			g.ch <- ch
+			if e.rng.Intn(3) == 0 {
+				time.Sleep(200 * time.Microsecond)
+			}
+		}
+		time.Sleep(2 * time.Millisecond)
+		for len(got) < len(all) && mon == "" {
+			readOne()
+		}
+		cancel()
+		close(g.ch)
+		if mon == "" && string(got) != string(all) {
+			off := 0
+			for off < len(got) && off < len(all) && got[off] == all[off] {
+				off++
+			}
+			mon = fmt.Sprintf("bytes read from the buffered conn differ from the bytes written at offset %d (writer burst with a lagging reader; no short buffer was reported)", off)
+		}
+		op := fmt.Sprintf("framing.conn.burst sizes=%v", sizes)
+		e.rep.Compare(op, "x", "x", "conn.burst", "framing.conn:burst", mon)
+	}
+}
+
 func main() {
 	a := lib.ParseArgs()
 	e := &engine{a: a, rng: lib.NewRng(a.Seed), m: lib.NewModel(a.Driver), rep: nil}
@@ -857,6 +951,7 @@ func main() {
 		e.runC08()
 	case "C09":
 		e.runC09()
+		e.runC09Burst()
 	default:
 		fmt.Println("unknown property", a.Prop)
 		return
